@@ -43,7 +43,7 @@ PAIRS = [(a, b) for i, a in enumerate(G.PROTOS) for b in G.PROTOS[i + 1:]]
 
 
 def budget(tier):
-    return 10000 if tier == "quick" else 10 * 3 * 45 + 150_000
+    return 10000 if tier == "quick" else 10 * 3 * 45 + 450_000
 
 
 def wall(tier):
